@@ -17,6 +17,9 @@ struct Env {  // environment the machine talks to
   size_t inPos = 0;        // bytes consumed
   std::string out;         // stdout bytes
   std::string files[8];    // simout<n>
+  std::string inFiles[8];  // simin<n> (a missing file reads like an empty one)
+  size_t inFilePos[8] = {0, 0, 0, 0, 0, 0, 0, 0};
+  bool fileInput = false;  // when set, reads from streams >= 256 are served from inFiles (otherwise such steps are classified NEED_INPUT_STREAM)
   bool exited = false;
   uint32_t exitValue = 0;
 };
@@ -126,9 +129,10 @@ struct Machine {
       break;
     }
     case 2: {
-      (void)load(sp + 2);
+      uint32_t s = load(sp + 2);
       uint32_t v;
-      if (env.inPos < env.in.size()) v = (uint8_t)env.in[env.inPos++];
+      if (s >= 256) { int ix = (s >> 8) & 7; if (env.inFilePos[ix] < env.inFiles[ix].size()) v = (uint8_t)env.inFiles[ix][env.inFilePos[ix]++]; else v = 0xFF; }
+      else if (env.inPos < env.in.size()) v = (uint8_t)env.in[env.inPos++];
       else v = 0xFF;  // end of input reads as 255
       store(sp + 1, v & 0xFF);
       break;
